@@ -90,6 +90,18 @@ def front (fifo : Bool) (l : List Val) : Val × Bool :=
 def back (fifo : Bool) (l : List Val) : Val × Bool :=
   if fifo then firstNonNil l.reverse else firstNonNil l
 
+/-- specification of a push batch under a policy: consult the policy on each value in order
+while room remains; append approved values; stop at the first rejection and report it -/
+def pushPol (pol : Val → Option Nat) : Option Nat → List Val → List Val × Option Nat
+  | _, [] => ([], none)
+  | room, x :: rest =>
+    if room == some 0 then ([], none)            -- full: nothing more is consulted or stored
+    else match pol x with
+      | some e => ([], some e)
+      | none =>
+        let r := pushPol pol (room.map (· - 1)) rest
+        (x :: r.1, r.2)
+
 /-- the part of the configuration that matters to content operations; none of them changes it -/
 structure Conf where
   fifo : Bool
